@@ -217,7 +217,15 @@ func c22RunE2E(seed uint64, role, chain, move, dbpath string) (res c22E2E) {
 		res.note = "did not reach the wait"
 		return
 	}
+	// wait until the retransmitter has demonstrably been running (two copies); on a loaded machine the 1 s ticker
+	// can take much longer than 2.6 s to deliver them
 	time.Sleep(2600 * time.Millisecond)
+	for k := 0; k < 300; k++ {
+		if b, _ := node.c22Count(); b >= 2 {
+			break
+		}
+		time.Sleep(100 * time.Millisecond)
+	}
 	b0, o0 := node.c22Count()
 	res.before = b0
 	switch move {
@@ -235,12 +243,13 @@ func c22RunE2E(seed uint64, role, chain, move, dbpath string) (res c22E2E) {
 		sc.stepPeerMsg("coop", "Event_OnCoopCloseReceived", msg, messages.MESSAGETYPE_COOPCLOSE, "(MCoop "+coqCoop(msg)+")")
 	}
 	b1, o1 := node.c22Count()
-	// copies sent while the moving step itself ran belong to "before" only when the swap had not yet moved;
-	// they cannot be told apart, so they count as "after" (the property allows one already-due copy)
+	// The retransmitter is stopped synchronously inside the moving step, so every copy sent after the step has
+	// returned was sent after the swap moved on (the property allows one copy that was already due). Copies sent
+	// WHILE the step ran are not counted: on a loaded machine the step can take longer than the 1 s interval and
+	// copies sent before the stop cannot be told apart from later ones.
 	time.Sleep(2600 * time.Millisecond)
 	b2, o2 := node.c22Count()
-	_ = b1
-	res.after = b2 - b0
+	res.after = b2 - b1
 	// messages of other kinds sent while nothing was being delivered (retransmitted non-otb messages)
 	res.other = (o2 - o1)
 	_ = o0
